@@ -250,7 +250,8 @@ func c27run(t *testing.T, hist []c27ev) (viols []explore.Violation, outcome stri
 
 type c27job struct{ Lo, Hi, Depth int }
 type c27res struct {
-	N     int
+	N         int
+	Validated int
 	Outs  []string
 	Viols []explore.Violation
 	Herr  string
@@ -280,6 +281,13 @@ func TestC27(t *testing.T) {
 					continue
 				}
 				v, out, herr := c27run(t, h)
+				if r.N%8 == 0 && herr == "" {
+					if _, out2, _ := c27run(t, h); out2 != out {
+						herr = fmt.Sprintf("nondeterministic replay of %v: %q vs %q", h, out, out2)
+					} else {
+						r.Validated++
+					}
+				}
 				r.N++
 				outs[out] = true
 				r.Viols = append(r.Viols, v...)
@@ -325,10 +333,11 @@ func TestC27(t *testing.T) {
 			results <- r
 		}(lo, hi)
 	}
-	hist, outs := 0, map[string]bool{}
+	hist, validated, outs := 0, 0, map[string]bool{}
 	for i := 0; i < jobs; i++ {
 		r := <-results
 		hist += r.N
+		validated += r.Validated
 		for _, o := range r.Outs {
 			outs[o] = true
 		}
@@ -340,7 +349,7 @@ func TestC27(t *testing.T) {
 	rep.Coverage = map[string]any{
 		"states":                        len(outs),
 		"transitions":                   hist * depth,
-		"traces_validated_against_impl": hist,
+		"traces_validated_against_impl": validated,
 		"filter_name_pairs":             n,
 		"matching_pairs":                pairs,
 		"histories":                     hist,
